@@ -368,6 +368,7 @@ func registerIntrinsics(ex *Exec) {
 	registerFmt(ex)
 	registerConcretizing(ex)
 	registerBytealg(ex)
+	registerJSON(ex)
 }
 
 // nativeError builds an error value (*errors.errorString) for a message.
